@@ -72,15 +72,16 @@ def Leaf.search (P : Params K) (l : Leaf K V) (key : K) : R (Option V) :=
 
 /-! ### Insert / Update descent -/
 
-/-- "preemptively update smallest value" (int64.go 399-404 / 528-533): when the
-    descent takes child 0 and the key is below that child's `smallest()`, the
-    first separator becomes the key. -/
-def lowerFirst (P : Params K) (key : K) (index : Nat) (runts : List K) {d : Nat} (child : Node K V d) :
+/-- "preemptively update smallest value" (int64.go 414-419 / 547-552): when the
+    descent takes child 0 and the key is below the node's own first separator
+    `parent.runts[0]`, that separator becomes the key. (Before repair F7 the comparison
+    was against `child.smallest()`, which could RAISE the separator: defect D7.) -/
+def lowerFirst (P : Params K) (key : K) (index : Nat) (runts : List K) {d : Nat} (_child : Node K V d) :
     R (List K) :=
   if index = 0 then
-    match Node.smallest child with
-    | .error e => .error e
-    | .ok smallest => .ok (if P.lt key smallest then runts.set 0 key else runts)
+    match runts[0]? with
+    | none => .error .indexOutOfRange
+    | some smallest => .ok (if P.lt key smallest then runts.set 0 key else runts)
   else .ok runts
 
 /-- One iteration of the `for n.isInternal()` loop of `Insert`/`Update`
